@@ -139,6 +139,19 @@ theorem C08_remove_takes_out_or_changes_nothing (g : Grid) (hi : Inv g) (a : Aid
     (g.pos a = none → (g.remove a).1 = g ∧ (g.remove a).2 = if g.multi then .err .type else .ok) :=
   c08_remove_spec g hi a
 
+/-- **the hazard outside the quantifier — `remove_agent` of an agent that lives on another space** (`pos a = some p`
+    was written by that space; this grid's cell `p` does not hold `a`): `MultiGrid.remove_agent` raises ValueError and
+    changes nothing; `SingleGrid.remove_agent` does not look — it clears cell `p`, so an occupant `b` of that cell is
+    evicted while keeping its `pos`, and the views of this grid disagree from then on (`Grid.foreignPos` and the
+    protocol line `foreign` reproduce it on the real classes; recorded as an observation, not a defect by the
+    statement: the quantifier's histories are those of one grid) -/
+theorem C08_remove_foreign_agent (g : Grid) (a : Aid) (p : Coord) (hp : g.pos a = some p) (hf : a ∉ g.content p) :
+    (g.multi = true → g.remove a = (g, .err .value)) ∧
+    (g.multi = false → (g.remove a).2 = .ok ∧ (g.remove a).1.content p = [] ∧ (g.remove a).1.pos a = none ∧
+      (∀ b, b ≠ a → (g.remove a).1.pos b = g.pos b) ∧
+      ∀ b, b ∈ g.content p → g.pos b = some p → ¬ Inv (g.remove a).1) :=
+  c08_remove_foreign g a p hp hf
+
 /-- **`place_agent`** (within the quantifier: unplaced agent) appends the agent to the cell's list -/
 theorem C08_place_appends (g : Grid) (a : Aid) (p : Coord) (hpos : g.pos a = none) (hok : (g.place a p).2 = .ok) :
     (g.place a p).1.content p = g.content p ++ [a] ∧ (g.place a p).1.pos a = some p ∧
@@ -309,6 +322,10 @@ example : (run (init 2 2 true true 13) [.place 0 (0, 0), .place 1 (0, 0), .move 
 /-- `remove_agent` of an agent that is not on the grid -/
 example : (step (init 2 2 true true 13) (.remove 0)).2 = .err .type := by decide
 example : (step (init 2 2 true false 13) (.remove 0)).2 = .ok := by decide
+
+/-- the foreign-agent hazard is reachable: agent 1 sits on (1, 1); agent 0, placed on another grid at (1, 1), is "removed" here -/
+example : let g := ((run (init 3 3 false false 18) [.place 1 (1, 1)]).foreignPos 0 (1, 1)).remove 0
+    (g.2, g.1.content (1, 1), g.1.pos 1) = (.ok, [], some (1, 1)) := by decide
 
 /-- a NetworkGrid history within the quantifier with three rejected calls (missing node twice, unplaced agent) -/
 def demoNetOps : List NOp := [.place 0 1, .place 1 1, .move 0 7, .place 2 9, .move 0 2, .remove 2, .move 1 1, .remove 0]
